@@ -74,6 +74,9 @@ def main():
                 prop = json.load(open(meta))["property"]
                 if ids and prop not in ids:
                     continue
+                names = [n for n in os.environ.get("SELFTEST_NAMES", "").split(",") if n]
+                if names and os.path.basename(d) not in names:
+                    continue
                 jobs.append((prop, diff))
     per = max(1, 16 // max(1, a.parallel))
     ok = True
